@@ -185,6 +185,13 @@ func (r *Run) Count(name string, n int64) {
 // Inc adds one.
 func (r *Run) Inc(name string) { r.Count(name, 1) }
 
+// Counter returns the current value of a counter.
+func (r *Run) Counter(name string) int64 {
+	r.mu.Lock()
+	defer r.mu.Unlock()
+	return r.res.Counts[name]
+}
+
 // Require states a minimum-observation threshold on a counter (checked on the merged result).
 func (r *Run) Require(name string, min int64) {
 	r.mu.Lock()
